@@ -26,7 +26,7 @@ META = {
         "quick": {"evaluations": 8000, "distinct_nontrivial": 300, "tables": {"hook/plan-compared": 3000, "hook/plan-cache-hit": 800, "m2/configs-compared": 6, "m2/subprocess-configs": 8, "m3/context-checks": 200, "m4/ops-compared": 1500, "m4/injected-switches": 5000, "m4/switches-in-fuse-path": 1000, "m1/evictions": 100, "m1/prefused-extent-families": 40, "m5/repo-tests:plan-compared": 200}},
         "thorough": {"evaluations": 100000, "distinct_nontrivial": 3000, "tables": {"m4/injected-switches": 100000, "m4/switches-in-fuse-path": 20000}},
     },
-    "wall": {"quick": 300, "thorough": 1700},
+    "wall": {"quick": 900, "thorough": 1700},
     "workers": {"quick": 8, "thorough": 12},
 }
 
